@@ -414,13 +414,14 @@ def initBytes (tk : Tokeniser) (env : Env) (st0 : Mask) (cs : List Bs) (prot : L
   init env st0 ⟨absChunks tk [] cs, prot, oracle⟩
 
 theorem initBytes_sync (tk : Tokeniser) (env : Env) (st0 : Mask) (cs1 cs2 : List Bs) (prot : List PItem)
-    (oracle : List (Nat × NegRes)) (h : cs1.flatten = cs2.flatten) :
+    (oracle : List (Nat × NegRes)) (hk : env.conn.startsSecure = false) (h : cs1.flatten = cs2.flatten) :
     Sync (initBytes tk env st0 cs1 prot oracle) (initBytes tk env st0 cs2 prot oracle) := by
+  unfold initBytes
+  rw [init_clear env st0 _ hk, init_clear env st0 _ hk]
   refine ⟨rfl, rfl, rfl, rfl, rfl, rfl, rfl, rfl, rfl, rfl, rfl, rfl, rfl, ?_, ?_, ?_⟩
   · intro x hx; cases hx
   · intro x hx; cases hx
-  · show ustream (initBytes tk env st0 cs1 prot oracle) = ustream (initBytes tk env st0 cs2 prot oracle)
-    simp only [ustream, initBytes, init]
+  · simp only [ustream]
     have a1 := abs_stream tk cs1 []
     have a2 := abs_stream tk cs2 []
     simp only [tokAll_nil, List.nil_append] at a1 a2
